@@ -185,7 +185,8 @@ def run_family(ctx, fam, share):
         fam.setup(ctx)
     ti = 0 if ctx.tier == 'quick' else 1
     if fam.stateful is not None:
-        fam.stateful(ctx, fam, max(1, fam.n[ti] // nsh))
+        if fam.n[ti] > 0:
+            fam.stateful(ctx, fam, max(1, fam.n[ti] // nsh))
         return
     if fam.enumerate is not None:
         stride = fam.stride[ti]
